@@ -31,7 +31,7 @@ ASSUMPTIONS = [
     'Gaussian priors are kept within +/-10 % of physical nominal values (negative temperatures etc. are not among the invalid-atmosphere classes of the statement)',
     'chi^2 == 0 (model equal to data) is outside the domain (the code maps it to NaN on purpose)',
 ]
-REQUIRED = {'retargeted:after-use': 0.1, 'retargeted:before-use': 0.1, 'observation-parameter-fitted': 0.15, 'sampler:nestle': 0.1, 'sampler:multinest': 0.1, 'sampler:polychord': 0.1, 'has-invalid-point': 0.1}
+REQUIRED = {'extreme-error-bars': 0.1, 'retargeted:after-use': 0.1, 'retargeted:before-use': 0.1, 'observation-parameter-fitted': 0.15, 'sampler:nestle': 0.1, 'sampler:multinest': 0.1, 'sampler:polychord': 0.1, 'has-invalid-point': 0.1}
 
 POOL = ['planet_radius', 'T', 'mol0', 'mol1', 'fill', 'clouds_pressure']
 
@@ -53,7 +53,7 @@ def _case(draw):
            'noise': draw(st.lists(st.floats(-1, 1), min_size=nb, max_size=nb)),
            'err': draw(st.lists(st.floats(0.2, 3.0), min_size=nb, max_size=nb)),
            'pos': draw(st.floats(0.05, 0.95)), 'wfac': draw(st.lists(st.floats(0.3, 0.9), min_size=nb, max_size=nb)),
-           'obs_param': draw(st.sampled_from([True, False, False]))}
+           'obs_param': draw(st.sampled_from([True, False, False])), 'err_mag': draw(st.sampled_from([0, -110, 0, 110, 0]))}
     npts = draw(S.ints(4, 14))
     pts = [{'u': draw(st.lists(st.floats(0.02, 0.98), min_size=5, max_size=5)),
             'invalid': draw(st.sampled_from([True, False, False]))} for _ in range(npts)]
@@ -126,7 +126,9 @@ def make_observation(out, o, native, nspec, w):
     centres = c0 + width * np.arange(nb)
     scale = float(np.median(np.abs(nspec))) or 1.0
     val = scale * (1.0 + 0.05 * np.array(o['noise'][:nb]))
-    err = 0.02 * scale * np.array(o['err'][:nb])
+    # error bars of any magnitude are legal: 10^(+-110) makes the PRODUCT of the normalisation factors leave the double
+    # range while their logarithms are perfectly ordinary numbers
+    err = 0.02 * scale * np.array(o['err'][:nb]) * 10.0 ** o.get('err_mag', 0)
     wl = 10000.0 / centres
     dwl = 10000.0 * (width * np.array(o['wfac'][:nb])) / centres ** 2
     rows = np.array([wl, val, err] + ([dwl] if o['cols'] == 4 else [])).T
@@ -184,6 +186,8 @@ def check(case):
     sampler = case['sampler']
     out.cls('sampler:' + sampler)
     out.cls('family:' + case['family'])
+    if case['obs'].get('err_mag'):
+        out.cls('extreme-error-bars')
     tmpdir = tempfile.mkdtemp(prefix='verif_c06_')
     try:
         with doubles.sampler_doubles() as (cap, pm):
